@@ -54,6 +54,30 @@ def program(head, m, brks, conts, nested):
     return src
 
 
+def program_throw(m, conts, throw_on, shape):
+    """Reference-only variants (node decides, no model): the body throws on one value, possibly after having
+    continued on earlier ones; the loop sits inside try / catch / finally in one of several shapes. Observed: the
+    values seen, next() / return() calls, which handlers ran and in which order."""
+    vals = ", ".join(str(10 + i) for i in range(m))
+    src = ("let n = 0, c = 0; const vals = [%s]; const log = [];\n"
+           "const it = {[Symbol.iterator]() { let i = 0; return {next() { n++; return i < vals.length ? {value: vals[i++], done: false} "
+           ": {value: 99, done: true}; }, return() { c++; log.push('ret'); return {}; }}; }};\n"
+           "const C = [%s];\n" % (vals, ", ".join(map(str, conts))))
+    loop = "for (const v of it) { log.push(v); if (C.includes(v)) continue; if (v === %d) throw new RangeError('t' + v); log.push('e' + v); }" % throw_on
+    if shape == "plain":
+        src += "try { %s log.push('after'); } catch (e) { log.push('catch:' + e.message); }\n" % loop
+    elif shape == "finally":
+        src += "try { try { %s log.push('after'); } finally { log.push('finally'); } } catch (e) { log.push('outer:' + e.message); }\n" % loop
+    elif shape == "later-throw":
+        src += ("try { try { %s log.push('after'); null.x; log.push('unreachable'); } catch (e) { log.push('inner:' + e.name); } "
+                "finally { log.push('finally'); } } catch (e2) { log.push('outer:' + e2.name); }\n" % loop)
+    elif shape == "function":
+        src += ("function f() { try { %s return 'done'; } catch (e) { log.push('catch:' + e.message); return 'caught'; } finally { log.push('finally'); } }\n"
+                "log.push(f());\n" % loop)
+    src += "log.join() + '/' + n + '/' + c"
+    return src
+
+
 def skeleton(ops):
     """(start index, rendering of the loop's own instructions with the body collapsed, list of findings about the body)."""
     g = [j for j, o in enumerate(ops) if o.startswith("GetIterator")]
@@ -285,3 +309,33 @@ def run(chk, th, stats):
         if (real != want_code or issues) and len(chk.proof_breaks) < 4:
             chk.proof_breaks.append("correspondence Lang.ForOf.cforof vs compile_for_of on `%s`: real %s vs model %s; body: %s"
                                     % (HEADS[head], ";".join(real), ";".join(want_code), "; ".join(issues) or "ok"))
+
+
+def run_throw(chk, th, stats):
+    """for-of bodies that throw (reference-only: node is the oracle)."""
+    cs = []
+    for m in (1, 2, 3, 4):
+        vals = [10 + i for i in range(m)]
+        for t in vals + [99]:
+            for conts in ([], [vals[0]], vals[:-1] if m > 1 else []):
+                for shape in ("plain", "finally", "later-throw", "function"):
+                    cs.append((m, conts, t, shape))
+    if chk.replay:
+        r = json.load(open(chk.replay))
+        cs = [(r["values"], r["continue_on"], r["throw_on"], r["shape"])]
+    srcs = [program_throw(*c) for c in cs]
+    rres = common.run_programs(th, [("t%d" % i, "steps=5000000", s) for i, s in enumerate(srcs)], tag="c01fo-t", timeout=1200)
+    nres = node_values(srcs, "t")
+    for i, (m, conts, t, shape) in enumerate(cs):
+        stats["forof_throw_cases"] = stats.get("forof_throw_cases", 0) + 1
+        r = rres.get("t%d" % i, {})
+        if r.get("status") == "complete" and str(r.get("value", "")).startswith("str:"):
+            iv = r["value"][4:]
+        elif r.get("status") == "error":
+            iv = "error " + str(r.get("class"))
+        else:
+            iv = "status " + str(r.get("status"))
+        if iv != nres[i] and len(chk.violations) < 6:
+            chk.violation({"values": m, "continue_on": conts, "throw_on": t, "shape": shape, "program": srcs[i], "tsrun": iv, "node": nres[i],
+                           "what": "for-of whose body throws: the iterator is not closed exactly once, or the surrounding try / catch / finally "
+                                   "does not see the exception as the reference engine does (format: log/next calls/return calls)"})
